@@ -9,8 +9,10 @@ import (
 	"time"
 
 	"cuelang.org/go/cue"
+	"cuelang.org/go/cue/ast"
 	"cuelang.org/go/cue/cuecontext"
 	cuejson "cuelang.org/go/encoding/json"
+	cueyaml "cuelang.org/go/encoding/yaml"
 	"cuelang.org/go/verifharness/kit"
 	"cuelang.org/go/verifharness/tlaval"
 	"golang.org/x/text/unicode/norm"
@@ -22,7 +24,7 @@ var jsonRaw = map[string]string{"RAW_EACUTE": "\u00e9", "RAW_EMOJI": "\U0001F600
 // checkJSONText replays JsonText.tla: every scalar text of the grammar (and
 // its malformed neighbours) through CUE's JSON decoder, as a value, a list
 // element and an object key.
-func checkJSONText(r *kit.Run) {
+func checkJSONText(r *kit.Run, asYAML bool) {
 	tres, err := kit.RunTLC(kit.TLCOpts{Module: "JsonText", CfgText: "INIT TablesInit\nNEXT Next\nCONSTANTS MaxAtoms = 0 Part = \"string\"\n", Dump: true, Workers: 1, Timeout: 5 * time.Minute})
 	if err != nil || !tres.OK() {
 		r.Fatal("JsonText tables: %v\n%s", err, tres.Tail(20))
@@ -56,6 +58,10 @@ func checkJSONText(r *kit.Run) {
 		r.Fatal("JsonText tables: %d atoms", len(atoms))
 	}
 	var cases, valid, invalid, anyv, canary, caught int64
+	decName := "JSON"
+	if asYAML {
+		decName = "YAML"
+	}
 	judge := func(w int, ctxs []*cue.Context, key, text, verdict string, wantStr *string, wantNum *big.Rat, wantInt bool) {
 		atomic.AddInt64(&cases, 1)
 		for ci, doc := range []string{text, "[" + text + "]", `{"k": ` + text + `}`, "{" + text + `: 1}`} {
@@ -65,7 +71,17 @@ func checkJSONText(r *kit.Run) {
 			if ci == 3 && verdict == "invalid" && !strings.HasPrefix(text, `"`) {
 				continue
 			}
-			expr, err := cuejson.Extract("t.json", []byte(doc))
+			var expr ast.Expr
+			var yf *ast.File
+			var err error
+			if asYAML {
+				if verdict != "valid" {
+					continue // only valid JSON is claimed to mean the same under the YAML decoder
+				}
+				yf, err = cueyaml.Extract("t.yaml", []byte(doc))
+			} else {
+				expr, err = cuejson.Extract("t.json", []byte(doc))
+			}
 			goValid := json.Valid([]byte(doc))
 			switch verdict {
 			case "invalid":
@@ -87,10 +103,15 @@ func checkJSONText(r *kit.Run) {
 				class = "class bom-in-string"
 			}
 			if err != nil {
-				r.Violation(class, fmt.Sprintf("CUE's JSON decoder rejects the valid document %q: %v", doc, err), map[string]any{"json": doc})
+				r.Violation(class, fmt.Sprintf("CUE's %s decoder rejects the valid JSON document %q: %v", decName, doc, err), map[string]any{"json": doc})
 				continue
 			}
-			v := ctxs[w].BuildExpr(expr)
+			var v cue.Value
+			if asYAML {
+				v = ctxs[w].BuildFile(yf)
+			} else {
+				v = ctxs[w].BuildExpr(expr)
+			}
 			var leaf cue.Value
 			var gotKey string
 			switch ci {
@@ -181,7 +202,7 @@ func checkJSONText(r *kit.Run) {
 					r.Violation("json panic "+body.String(), fmt.Sprintf("decoding %q panics: %v", body.String(), p), map[string]any{"json": `"` + body.String() + `"`})
 				}
 			}()
-			judge(w, ctxs, "json text "+fmt.Sprint(st["txt"])+" ", `"`+body.String()+`"`, verdict, &want, nil, false)
+			judge(w, ctxs, decName+" text "+fmt.Sprint(st["txt"])+" ", `"`+body.String()+`"`, verdict, &want, nil, false)
 		}()
 	})
 	res.Cleanup()
@@ -198,7 +219,7 @@ func checkJSONText(r *kit.Run) {
 		rec := tlaval.AsRec(st["txt"])
 		if b, ok := rec["bad"]; ok {
 			atomic.AddInt64(&invalid, 1)
-			judge(0, ctxs, "json number ", bad[tlaval.AsInt(b)-1], "invalid", nil, nil, false)
+			judge(0, ctxs, decName+" number ", bad[tlaval.AsInt(b)-1], "invalid", nil, nil, false)
 			return
 		}
 		atomic.AddInt64(&valid, 1)
@@ -216,7 +237,7 @@ func checkJSONText(r *kit.Run) {
 		if sign == "-" {
 			want.Neg(want)
 		}
-		judge(0, ctxs, "json number "+text+" ", text, "valid", nil, want, den[0] == 1)
+		judge(0, ctxs, decName+" number "+text+" ", text, "valid", nil, want, den[0] == 1)
 	})
 	res.Cleanup()
 	if err != nil {
